@@ -74,7 +74,9 @@ def check_conforming(sh, p, r, case):
         if ltype != "NEWLINE" and k != len(stmts) - 1:
             sh.violation("statement_not_ending_at_line_end", (name, ltype), case, {"rule": name, "last": ltype, "index": k})
     sh.count("c07.statement_count_equals_line_count")
-    nlines = len(p.lines)
+    # the empty statement that is a loop's whole body belongs to the control statement above it
+    ir = [l for l in p.lines if l.kind != "stmt_empty"]
+    nlines = len(ir)
     if len(stmts) - eol_split != nlines:
         sh.violation("statement_count", (str(len(stmts) - eol_split - nlines),), case,
                      {"statements": len(stmts), "ir_lines": nlines, "eol_comment_splits": eol_split})
@@ -82,7 +84,7 @@ def check_conforming(sh, p, r, case):
         # depth back at file level after each function's closing brace
         it = iter(stmts)
         kept = [s for k, s in enumerate(stmts) if not (k in skip and s[0] == "IsComment" and s[4] and s[4][1] != 1)]
-        for l, s in zip(p.lines, kept):
+        for l, s in zip(ir, kept):
             if l.kind in ("fclose", "td_close"):
                 sh.count("c07.global_scope_after_function")
                 if s[7] != ("GlobalScope", 0):
